@@ -505,7 +505,10 @@ def kin(draw, db, uptake_ok=("H2O",)):
     # Runge-Kutta method only (it clips the reaction at m = 0); CVODE on such a discontinuous rate does not return or
     # crashes on the unchanged tree (seen with Fe + exchanger + 74 mol of Gypsum requested from 0.48 mol)
     overshoot = any(c["rate"] in ("r_const", "r_unguarded") and c["parm"] * top > 0.5 * c["m"] for c in comps)
-    d = {"comps": comps, "cvode": draw(st.booleans()) and not overshoot}
+    cv = draw(st.booleans())
+    d = {"comps": comps, "cvode": cv and not overshoot}
+    if cv and overshoot:
+        d["cvode_forced_off"] = True
     if draw(st.booleans()):
         k = draw(st.integers(1, 3))
         d["times"] = [float("%.3g" % (top * (i + 1) / k)) for i in range(k)]
@@ -629,8 +632,10 @@ def case_strategy(draw, profile="c02", dbs=("phreeqc.dat",)):
                 stp[kd] = draw(ss(db, profile))
             elif kd == "kin":
                 stp[kd] = draw(kin(db, uptake_ok))
-        if draw(st.integers(0, 7)) == 0:
-            stp["temps"] = [draw(cg.uni(5.0, 80.0, 3)) for _ in range(draw(st.integers(1, 3)))]
+        # REACTION_TEMPERATURE also defines reaction steps: with up to 5 entries it regularly asks for more steps than
+        # REACTION / KINETICS define (re-use of the last amount, incremental or cumulative)
+        if draw(st.integers(0, 3)) == 0:
+            stp["temps"] = [draw(cg.uni(5.0, 80.0, 3)) for _ in range(draw(st.integers(1, 5)))]
         prev_kinds = {kd for kd in KINDS if kd in stp and kd != "reaction"}
         steps.append(stp)
     return {"db": db, "sols": sols, "steps": steps, "profile": profile}
